@@ -1,0 +1,40 @@
+//go:build verif
+
+package casket
+
+import (
+	"bytes"
+	"fmt"
+	"sync"
+)
+
+// VerifC15Execute is ValidateAndExecuteDirectives on an instance the caller gets back:
+// the Casketfile is loaded, the server type's context inspects the server blocks and every
+// directive's setup function runs in order. With justValidate the parsing callbacks are
+// skipped (so the http server type's "tls" callback never contacts an ACME server) and the
+// returned context holds the site configurations exactly as the directives left them.
+// Nothing is started and nothing listens. Call inst.ShutdownCallbacks() when done.
+// (verification build only; no behaviour change)
+func VerifC15Execute(input Input, justValidate bool) (*Instance, Context, error) {
+	inst := &Instance{serverType: input.ServerType(), wg: new(sync.WaitGroup), Storage: make(map[interface{}]interface{})}
+	stypeName := input.ServerType()
+	stype, err := getServerType(stypeName)
+	if err != nil {
+		return inst, nil, err
+	}
+	inst.casketfileInput = input
+	sblocks, err := loadServerBlocks(stypeName, input.Path(), bytes.NewReader(input.Body()))
+	if err != nil {
+		return inst, nil, err
+	}
+	inst.context = stype.NewContext(inst)
+	if inst.context == nil {
+		return inst, nil, fmt.Errorf("server type %s produced a nil Context", stypeName)
+	}
+	sblocks, err = inst.context.InspectServerBlocks(input.Path(), sblocks)
+	if err != nil {
+		return inst, inst.context, fmt.Errorf("error inspecting server blocks: %v", err)
+	}
+	err = executeDirectives(inst, input.Path(), stype.Directives(), sblocks, justValidate)
+	return inst, inst.context, err
+}
